@@ -2,9 +2,12 @@ package main
 
 import (
 	"fmt"
+	"github.com/ucan-wg/go-ucan/pkg/args"
+	"runtime"
 	"sort"
 	"strings"
 	"sync"
+	"sync/atomic"
 
 	"github.com/ipfs/go-cid"
 	"github.com/ipld/go-ipld-prime/datamodel"
@@ -40,6 +43,8 @@ func mkConcFixture(keys []principal, L int, ks []string) *concFixture {
 		for j := 0; j < n; j++ {
 			cs = append(cs, policy.Equal("."+ks[0]+salt+fmt.Sprint(j)+"?", J("1")))
 		}
+		// selectors with open and negative slice bounds, resolved against lists of different lengths by the two invocations
+		cs = append(cs, policy.All(".lst[1:]", policy.Like(".", "*")), policy.Any(".lst[:-1]", policy.Like(".", "*@x")))
 		p, _ := policy.Construct(cs...)
 		return p
 	}
@@ -101,12 +106,12 @@ func mkConcFixture(keys []principal, L int, ks []string) *concFixture {
 		}
 		opts = append(opts, invocation.WithMeta(k, i))
 	}
-	inv, err := invocation.New(keys[0].did, sub.did, command.Command("/a"), prf, opts...)
+	inv, err := invocation.New(keys[0].did, sub.did, command.Command("/a"), prf, append(append([]invocation.Option{}, opts...), invocation.WithArgument("lst", []any{"a@x", "b@x"}))...)
 	if err != nil {
 		panic(err)
 	}
 	f.inv = inv
-	inv2, err := invocation.New(keys[0].did, sub.did, command.Command("/b"), prf, opts...)
+	inv2, err := invocation.New(keys[0].did, sub.did, command.Command("/b"), prf, append(append([]invocation.Option{}, opts...), invocation.WithArgument("lst", []any{"a@x", "b@x", "c@y"}))...)
 	if err != nil {
 		panic(err)
 	}
@@ -137,8 +142,17 @@ func (f *concFixture) snapshot() string {
 			sb.WriteString(fmt.Sprint(st == nil))
 		}
 	}
+	// and every word reachable from the tokens, unexported fields and unused slice capacity included
+	sb.WriteString("|deep:")
+	sb.WriteString(deepDump(f.inv))
+	sb.WriteString(deepDump(f.inv2))
+	for _, d := range f.dlgs {
+		sb.WriteString(deepDump(d))
+	}
 	return sb.String()
 }
+
+var hookSeq atomic.Int64
 
 type concOp struct {
 	name string
@@ -187,6 +201,27 @@ var concOps = []concOp{
 	{"is_valid", func(fx *concFixture) string { return fmt.Sprint(fx.inv.IsValidNow(), fx.dlgs[0].IsValidNow()) }},
 	{"exec_allowed", func(fx *concFixture) string { return fmt.Sprint(fx.inv.ExecutionAllowed(fx.ld) == nil) }},
 	{"exec_allowed_2", func(fx *concFixture) string { return fmt.Sprint(fx.inv2.ExecutionAllowed(fx.ld2) == nil) }},
+	{"exec_hook_adds", func(fx *concFixture) string {
+		// the hook extends its own writeable clone of the arguments: what one check adds, no other check may see
+		mine := fmt.Sprintf("extra-%d", hookSeq.Add(1))
+		var keys []string
+		err := fx.inv.ExecutionAllowedWithArgsHook(fx.ld, func(a args.ReadOnly) (*args.Args, error) {
+			na := a.WriteableClone()
+			if err := na.Add(mine, 1); err != nil {
+				return nil, err
+			}
+			runtime.Gosched()
+			for k := range na.Iter() {
+				keys = append(keys, k)
+			}
+			return na, nil
+		})
+		last := ""
+		if len(keys) > 0 {
+			last, keys = keys[len(keys)-1], keys[:len(keys)-1]
+		}
+		return fmt.Sprint(err == nil, strings.Join(keys, ","), last == mine)
+	}},
 	{"to_sealed", func(fx *concFixture) string {
 		b, _, err := fx.inv.ToSealed(fx.iss.priv)
 		if err != nil {
